@@ -362,7 +362,7 @@ func VfC13_Banned() {
 // hook whenever a compression section exists (enabled or not), so values written earlier read back.
 func VfC13_Hooks() {
 	vfInstallStub()
-	returning := []string{"get", "getset", "hget", "hgetall", "hmget", "hvals", "GET", "HGetAll"}
+	returning := []string{"get", "getset", "hget", "hgetall", "hmget", "hvals", "GET", "HGetAll", "hscan", "HSCAN"}
 	cmd := returning[nd.Concrete(nd.Choice("cmd", len(returning)))]
 	enable := nd.Bool("enable")
 	cfg := vfCompressCfg(true, 1)
@@ -382,7 +382,19 @@ func VfC13_Hooks() {
 	if vfDone(rd.done) {
 		return
 	}
-	rd.SetResponse(newArray(*newBulkBytes(frame), *newBulkBytes([]byte("plain"))))
-	nd.Assert(vfBytesEq(rd.Response().Array[0].Text, orig), "replies of value-returning commands are decompressed")
-	nd.Assert(vfBytesEq(rd.Response().Array[1].Text, []byte("plain")), "plain values in the same reply are untouched")
+	switch nd.Concrete(nd.IntRange("reply-shape", 0, 2)) {
+	case 0: // flat array (HGETALL, HMGET, HVALS)
+		rd.SetResponse(newArray(*newBulkBytes(frame), *newBulkBytes([]byte("plain"))))
+		nd.Assert(vfBytesEq(rd.Response().Array[0].Text, orig), "replies of value-returning commands are decompressed")
+		nd.Assert(vfBytesEq(rd.Response().Array[1].Text, []byte("plain")), "plain values in the same reply are untouched")
+	case 1: // values one level deeper (HSCAN: [cursor, [field, value, ...]])
+		rd.SetResponse(newArray(*newBulkString("0"), *newArray(*newBulkString("f"), *newBulkBytes(frame), *newBulkString("g"), *newBulkBytes([]byte("plain")))))
+		in := rd.Response().Array[1].Array
+		nd.Assert(vfBytesEq(in[1].Text, orig), "values nested one level deeper in the reply (HSCAN) are decompressed too")
+		nd.Assert(vfBytesEq(in[3].Text, []byte("plain")) && vfBytesEq(rd.Response().Array[0].Text, []byte("0")), "cursor, fields and plain values are untouched")
+		nd.Cover("nested-reply")
+	case 2: // a single bulk string (GET, HGET, GETSET)
+		rd.SetResponse(newBulkBytes(frame))
+		nd.Assert(vfBytesEq(rd.Response().Text, orig), "a bulk reply is decompressed")
+	}
 }
